@@ -294,6 +294,9 @@ def run(tier, seed, replay_path=None):
     # (3) socket
     socket_checks(ck, tier)
     client_level(ck, tier)
+    # the limit the decoder enforces is the configured one, in every runtime configuration (server construction path)
+    from . import runtime_checks
+    runtime_checks.run_plumbing(ck, tier, only='item-limit')
     for need in ('decoder: oversized', 'handler: oversized answered', 'skipped cleanly (silent)',
                  'body entirely in the first read, with followers', 'more than half of the body in the first read', 'nothing of the body in the first read'):
         ck.covers.setdefault(need, False)
